@@ -15,18 +15,20 @@ import (
 	"math/rand"
 	"os"
 	"os/exec"
-	"sort"
 	"path/filepath"
+	"sort"
 	"strings"
 	"sync"
 	"time"
 
 	"github.com/idena-network/idena-go/blockchain/types"
 	"github.com/idena-network/idena-go/common"
-	"github.com/idena-network/idena-go/crypto"
 	"github.com/idena-network/idena-go/config"
 	"github.com/idena-network/idena-go/core/ceremony"
 	"github.com/idena-network/idena-go/core/state"
+	"github.com/idena-network/idena-go/crypto"
+	"github.com/idena-network/idena-go/ipfs"
+	dbm "github.com/tendermint/tm-db"
 
 	"verifharness/internal/chainfx"
 	"verifharness/internal/hx"
@@ -41,7 +43,10 @@ type c01params struct {
 	BlocksFile   string `json:"blocks_file"`
 	TraceFile    string `json:"trace_file"`
 	RestartEvery int    `json:"restart_every"`
-	Fork         int    `json:"fork"` // follower: 0 = skip side blocks; 1 = insert every side block, then reset to its parent; 2 = and restart right after the reset
+	DBDir        string `json:"db_dir"`   // follower: directory of its on-disk database (a restart is a new process over it)
+	StartAt      int    `json:"start_at"` // follower: lines of the blocks file already consumed by earlier processes
+	Seg          int    `json:"seg"`      // follower: number of this process in the follower's life
+	Fork         int    `json:"fork"`     // follower: 0 = skip side blocks; 1 = insert every side block, then reset to its parent; 2 = and restart right after the reset
 	ReorgEvery   int    `json:"reorg_every"`
 	SkewSec      int    `json:"skew_sec"`
 	Label        string `json:"label"`
@@ -108,8 +113,10 @@ func c01realCeremony() {
 		return ceremony.FxAttachReal(n.Chain, n.App, n.DB, n.Cfg, n.Sec, n.Bus, n.Pool)
 	}
 	chainfx.RealAfterAdd = func(n *chainfx.Node, b *types.Block) {
-		if b.Header.Flags().HasFlag(types.FlipLotteryStarted) {
-			n.VC.FxWaitLottery()
+		if b.Header.Flags().HasFlag(types.FlipLotteryStarted) && !n.VC.FxWaitLottery() {
+			// not a verdict on the code: the harness could not synchronise with the asynchronous lottery computation
+			fmt.Fprintln(os.Stderr, "harness: flip lottery computation did not finish in time")
+			os.Exit(3)
 		}
 	}
 }
@@ -168,7 +175,10 @@ func blkLine(w *chainfx.World, b *types.Block) string {
 // ansLine: what the node's ceremony object holds
 func ansLine(w *chainfx.World, n *chainfx.Node) string {
 	ep, recs := n.VC.FxRecords()
-	type e struct{ a, k int; p uint32 }
+	type e struct {
+		a, k int
+		p    uint32
+	}
 	var es []e
 	for _, r := range recs {
 		es = append(es, e{w.Index(r.Addr) + 1, r.Kind, payloadId(r.Payload)})
@@ -307,11 +317,39 @@ func c01gen(c *hx.Ctx, p c01params) error {
 }
 
 // child: follower in some environment
+// c01progress is what a follower process leaves for its successor.
+type c01progress struct {
+	Next int  `json:"next"` // lines consumed
+	Done bool `json:"done"`
+}
+
 func c01follow(c *hx.Ctx, p c01params) error {
 	w, _ := c01world(p)
 	chainfx.SetTime(w.T0)
-	n, err := w.StartNode(nil, 1, true)
+	// the node's database is on disk and its ipfs store is saved next to it: a restart is the end of this process and
+	// the start of another one over the same files (no goroutine, cache or object of the old process survives)
+	db, err := dbm.NewGoLevelDB("chain", p.DBDir)
 	if err != nil {
+		return err
+	}
+	ipfsFile := filepath.Join(p.DBDir, "ipfs.json")
+	if b, err := os.ReadFile(ipfsFile); err == nil {
+		data := map[string][]byte{}
+		if json.Unmarshal(b, &data) == nil {
+			ipfs.VerifLoad(chainfx.IpfsOf(db), data)
+		}
+	}
+	var n *chainfx.Node
+	if p.Seg == 0 {
+		n, err = w.StartNode(db, 1, true)
+	} else {
+		n, err = chainfx.Start(db, w.Keys[1], w.Cfg(), true)
+	}
+	if err != nil {
+		if p.Seg > 0 {
+			c.Fail("C01:restart-failed:"+p.Label, fmt.Sprintf("process %d (after %d lines): %v", p.Seg, p.StartAt, err), p)
+			return nil
+		}
 		return err
 	}
 	f, err := os.Open(p.BlocksFile)
@@ -319,31 +357,52 @@ func c01follow(c *hx.Ctx, p c01params) error {
 		return err
 	}
 	defer f.Close()
-	tf, _ := os.Create(p.TraceFile)
+	tf, _ := os.OpenFile(p.TraceFile, os.O_CREATE|os.O_WRONLY|os.O_APPEND, 0644)
 	defer tf.Close()
 	sc := bufio.NewScanner(f)
 	sc.Buffer(make([]byte, 1<<20), 64<<20)
-	c.Line("new", "ok")
-	var blocks []*types.Block
-	i := 0
-	restart := func(before uint64) bool {
-		if n.VC != nil && n.Real {
-			n.VC.FxStop()
-		}
-		nn, err := chainfx.Start(n.DB, n.Key, w.Cfg(), true)
-		if err != nil {
-			c.Fail("C01:restart-failed:"+p.Label, fmt.Sprintf("before height %d: %v", before, err), p)
-			return false
-		}
-		n = nn
+	if p.Seg == 0 {
+		c.Line("new", "ok")
+	} else {
 		c.Hit("restarts")
 		c.Line("restart", "ok")
 		c.Line("ans", ansLine(w, n))
+	}
+	var blocks []*types.Block
+	i := 0
+	lineNo := 0
+	restartDue := false
+	finish := func(done bool) error {
+		b, _ := json.Marshal(ipfs.VerifDump(chainfx.IpfsOf(db)))
+		os.WriteFile(ipfsFile, b, 0644)
+		pb, _ := json.Marshal(c01progress{Next: lineNo, Done: done})
+		os.WriteFile(filepath.Join(c.Out, "progress.json"), pb, 0644)
+		return db.Close()
+	}
+	restart := func(before uint64) bool {
+		restartDue = true
 		return true
 	}
 	for sc.Scan() {
+		if restartDue {
+			return finish(false)
+		}
 		line := sc.Text()
+		lineNo++
 		side := strings.HasPrefix(line, "S ")
+		if lineNo <= p.StartAt {
+			// consumed by an earlier process of this follower: only the list of canonical blocks is rebuilt
+			if !side {
+				if raw, err := hex.DecodeString(line); err == nil {
+					blk := new(types.Block)
+					if blk.FromBytes(raw) == nil {
+						blocks = append(blocks, blk)
+						i++
+					}
+				}
+			}
+			continue
+		}
 		if side {
 			line = line[2:]
 			if p.Fork == 0 {
@@ -382,11 +441,6 @@ func c01follow(c *hx.Ctx, p c01params) error {
 		blocks = append(blocks, blk)
 		i++
 		chainfx.SetTime(time.Unix(blk.Header.Time()+int64(p.SkewSec), 0))
-		if p.RestartEvery > 0 && i%p.RestartEvery == 0 {
-			if !restart(blk.Height()) {
-				return nil
-			}
-		}
 		justFinished := len(blocks) > 4 && blocks[len(blocks)-2].Header.Flags().HasFlag(types.ValidationFinished)
 		if p.ReorgEvery > 0 && (i%p.ReorgEvery == 0 || justFinished) && len(blocks) > 4 {
 			k := 1 + i%3
@@ -422,8 +476,11 @@ func c01follow(c *hx.Ctx, p c01params) error {
 		fmt.Fprintln(tf, traceLine(n))
 		c.Line(blkLine(w, blk), "ok")
 		c.Line("ans", ansLine(w, n))
+		if p.RestartEvery > 0 && i%p.RestartEvery == 0 {
+			restart(blk.Height())
+		}
 	}
-	return nil
+	return finish(true)
 }
 
 type c01env struct {
@@ -451,9 +508,12 @@ func c01parent(c *hx.Ctx) error {
 		p   c01params
 		env []string
 	}
+	childDir := func(p c01params) string {
+		return filepath.Join(c.Out, fmt.Sprintf("child-%d-%s-%s-%d", p.Seed, p.Mode, p.Label, p.Seg))
+	}
 	var mu sync.Mutex
 	runChild := func(p c01params, tz string) (*hx.Report, error) {
-		dir := filepath.Join(c.Out, fmt.Sprintf("child-%d-%s-%s", p.Seed, p.Mode, p.Label))
+		dir := childDir(p)
 		os.MkdirAll(dir, 0755)
 		pf := filepath.Join(dir, "params.json")
 		b, _ := json.Marshal(map[string]interface{}{"replay": p})
@@ -475,14 +535,16 @@ func c01parent(c *hx.Ctx) error {
 		}
 		mu.Lock()
 		if p.Mode == "follow" {
-			// the follower's protocol lines become lines of this channel (answered by the Lean model of the ceremony records)
+			// the follower's protocol lines are kept (rep.Notes: op, answer, op, answer, …) and emitted by the caller in one
+			// piece once the follower's life is over, so that the cases of different followers do not interleave
 			ob, _ := os.ReadFile(filepath.Join(dir, "ops.txt"))
 			ib, _ := os.ReadFile(filepath.Join(dir, "impl.txt"))
 			ol, il := strings.Split(strings.TrimRight(string(ob), "\n"), "\n"), strings.Split(strings.TrimRight(string(ib), "\n"), "\n")
+			rep.Notes = nil
 			if len(ol) == len(il) {
 				for k := range ol {
 					if ol[k] != "" {
-						c.Line(ol[k], il[k])
+						rep.Notes = append(rep.Notes, ol[k], il[k])
 					}
 				}
 			}
@@ -561,9 +623,43 @@ func c01parent(c *hx.Ctx) error {
 				p := base
 				p.Mode, p.Label, p.RestartEvery, p.ReorgEvery, p.SkewSec, p.Fork = "follow", e.label, e.restartEvery, e.reorgEvery, e.skew, e.fork
 				p.TraceFile = filepath.Join(c.Out, fmt.Sprintf("trace-%d-%s.txt", seed, e.label))
-				rp, err := runChild(p, e.tz)
+				p.DBDir = filepath.Join(c.Out, fmt.Sprintf("db-%d-%s", seed, e.label))
+				os.RemoveAll(p.DBDir)
+				os.MkdirAll(p.DBDir, 0755)
+				os.Remove(p.TraceFile)
+				// the life of a follower: one process per stretch between restarts, all over the same on-disk database
+				all := &hx.Report{}
+				var err error
+				for seg := 0; seg < 1000; seg++ {
+					p.Seg = seg
+					var rp *hx.Report
+					rp, err = runChild(p, e.tz)
+					if err != nil {
+						break
+					}
+					all.Failures = append(all.Failures, rp.Failures...)
+					all.Notes = append(all.Notes, rp.Notes...)
+					var pr c01progress
+					pb, rerr := os.ReadFile(filepath.Join(childDir(p), "progress.json"))
+					if rerr != nil || json.Unmarshal(pb, &pr) != nil || pr.Done || len(rp.Failures) > 0 {
+						break
+					}
+					if pr.Next <= p.StartAt && seg > 0 {
+						err = fmt.Errorf("follower %s made no progress after line %d", e.label, p.StartAt)
+						break
+					}
+					p.StartAt = pr.Next
+					os.RemoveAll(childDir(p))
+				}
+				os.RemoveAll(p.DBDir)
+				mu.Lock()
+				for k := 0; k+1 < len(all.Notes); k += 2 {
+					c.Line(all.Notes[k], all.Notes[k+1])
+				}
+				mu.Unlock()
+				all.Notes = nil
 				tr, _ := os.ReadFile(p.TraceFile)
-				ch <- res{e, rp, err, string(tr)}
+				ch <- res{e, all, err, string(tr)}
 			}()
 		}
 		for range envs {
